@@ -10,7 +10,7 @@ func (k *collector) classOf(c Case) map[string]string {
 	case "panic":
 		set["panic|"+c.Format+"|"+r.Panic.Func+"|"+r.Panic.Kind] = "panic: " + r.Panic.Value
 	case "hang":
-		set["hang|"+c.Format+"|"+c.Family] = "no result within the watchdog"
+		set["hang|"+c.Format+"|"+hangSub(c)] = "no result within the watchdog"
 	}
 	for _, l := range r.Life {
 		set["life|"+c.Format+"|"+subOf(l, ":")] = l
